@@ -15,7 +15,24 @@ EXTENDS BitBlastCase, IOUtils
 Cases_ == JsonDeserialize(IOEnv.CASES)
 VARIABLE i
 
+FxVerdict(t) ==
+  LET x == t.case IN
+  IF FxRejected(x) THEN (IF t.exc # "" THEN "conform" ELSE "drift:model-rejects-real-does-not")
+  ELSE IF t.exc # "" THEN "drift:real-raised-model-does-not"
+  ELSE
+  LET res == FxResult(x)
+      real == [j \in DOMAIN t.bits |-> Canon(t.bits[j])]
+      ins == FxInputs(x)
+      U == Rows(Len(ins))
+      env == InputEnv(ins, U)
+  IN IF t.w # res.w THEN "drift:type-tag"
+     ELSE IF Len(real) # Len(res.bits) THEN "drift:number-of-bits"
+     ELSE IF real = res.bits THEN "conform"
+     ELSE IF \A j \in DOMAIN real : FreeN(real[j]) \subseteq DOMAIN env /\ SemN(real[j], env, U) = SemN(res.bits[j], env, U) THEN "same-meaning"
+     ELSE "drift:bit-function-differs"
+
 Verdict(t) ==
+  IF t.case.l.k \in {"fx", "flt"} THEN FxVerdict(t) ELSE
   LET x == t.case
       res == Result(x)
   IN IF t.exc # "" THEN (IF Rejects(res) THEN "conform" ELSE "drift:real-raised-model-does-not")
